@@ -108,7 +108,7 @@ def check(prop, tier, seed):
     tie_names = list(getattr(mod, 'TIE_A', []))
     tie_ax = {}
     if tie_names:
-        tie_ax, tst, tlog = core.tie_a()
+        tie_ax, tst, tlog = core.tie_a(tie_names)
         gen = tst.get('status', {}) if isinstance(tst, dict) else {}
         for fn, st in gen.items():
             if st.get('status') != 'ok' and any(t.startswith(fn) for t in tie_names):
